@@ -53,7 +53,11 @@ SPEC = {
     ],
     "assumptions": [
         "guard of the oracle: the map before the call is a well-formed, fully embedded triangle mesh (every linked in-use dart in a closed "
-        "beta1 triangle, coordinates at every vertex id), fully anchored when the anchor storages exist, the edge exists and is of the "
+        "beta1 triangle, coordinates at every vertex id), with ANY subset of the three anchor storages and ANY subset of the cells "
+        "anchored (fully, partially or not at all: an undefined anchor is a value the clauses compare like any other, merged by the "
+        "attribute law: undefined + defined = defined), no anchor stored under an identifier that is not a cell of the mesh (D15a "
+        "leaves such garbage; it would resurface when a cell takes that identifier); a collapse additionally needs the three anchors it reads (both end points and "
+        "the edge) when the VertexAnchor storage exists — without them the kernel retries; the edge exists and is of the "
         "right kind (interior for swap / cut_inner, boundary for cut_outer), spare darts are distinct free in-use darts; the collapse "
         "clauses additionally need the link condition of the statement (no common neighbour besides the opposite corners)",
         "theorems (a) take the named darts of the kernel in range / non-null where the Rust code indexes with them (hypotheses listed in "
@@ -76,10 +80,12 @@ SPEC = {
     ],
     "rule": "split grids 1x1..3x3 (thorough 4x4) from `grid 2 1 <mask> ncl`, vertices perturbed by multiples of 1/16 (all triangles stay "
             "positively oriented), with and without anchors (corners = nodes, boundary = curves, interior = surfaces; faces one or several "
-            "surfaces) and optionally VTerm; stream 1: EVERY dart of every mesh as edge argument (both orientations of interior edges, boundary, "
+            "surfaces), PARTIALLY anchored (only some of the storages 6/7/8: masks 32, 64, 96, 128, 160, 192; or all three with face "
+            "anchors / interior edge anchors / random edge and face anchors / a few vertex anchors left undefined) and optionally VTerm; stream 1: EVERY dart of every mesh as edge argument (both orientations of interior edges, boundary, "
             "next to the boundary) x swap / cut_inner|cut_outer (spare darts from `add`, natural and permuted) / collapse; stream 2: histories "
             "(<= 30 calls) of the same operations on random edges, generated adaptively from the implementation's own snapshots (the driver "
-            "re-anchors faces left without anchor by finding D15a so that histories stay inside the guard); stream 3 (correspondence + "
+            "re-anchors faces left without anchor by finding D15a and clears the anchors that finding leaves under identifiers that are "
+            "no longer cells, so that histories stay inside the guard); stream 3 (correspondence + "
             "error => unchanged only): null / removed / free / out-of-range edges, wrong cut kind, null / repeated / linked / removed spare darts, "
             "undefined vertices, missing or partial anchors; stream 4: kernels inside tx blocks. Oracle on the implementation per call, from the "
             "snapshots before/after: ok => all faces triangles, wf, triangle set (as cyclic coordinate triples) = specified set, V/E/F deltas, "
@@ -153,8 +159,17 @@ def sides_of(p, nx, ny):
     return s
 
 
+def part_of(anchors):
+    """the partial-anchoring rule of a configuration (`("part", rule)`), or None"""
+    return anchors[1] if isinstance(anchors, tuple) else None
+
+
 def setup(nx, ny, mask, rng, anchors, surfaces=1, amp=3):
-    """lines building a perturbed, (optionally) fully anchored split grid"""
+    """lines building a perturbed, (optionally) anchored split grid.  `anchors`: False / True (every cell of every registered
+    kind) / "random" / ("part", rule): PARTIALLY anchored — only the storages of `mask` exist (written through `wanchort`, the
+    top-level `wanchor` needs all three) and `rule` leaves anchors undefined on purpose: "all" (nothing dropped), "faces" (no
+    face anchor), "faces-some", "inner-edges" (edge anchors on the boundary only), "random" (edges and faces at random),
+    "vertices-some" (a few vertices too: most calls then fail with InsufficientData, error => unchanged)"""
     g = grid_mesh(nx, ny)
     lines = [f"grid 2 1 {mask} ncl 0 0 {nx} {ny} 1 1"]
     vids = sorted({g.vid(d) for d in g.linked})
@@ -174,7 +189,13 @@ def setup(nx, ny, mask, rng, anchors, surfaces=1, amp=3):
         if pos[v] != g.a0[v]:
             lines.append(f"wv {v} {fr_tok(pos[v][0])} {fr_tok(pos[v][1])}")
     if anchors:
+        rule = part_of(anchors)
+        w = "wanchor" if mask & 224 == 224 else "wanchort"
+        has_v, has_e, has_f = bool(mask & 32), bool(mask & 64), bool(mask & 128)
+        somef = rng.random()
         for v in vids:
+            if not has_v or (rule == "vertices-some" and rng.random() < 0.25):
+                continue
             s = sides_of(g.a0[v], nx, ny)
             a = f"N{v}" if len(s) == 2 else (f"C{s[0]}" if len(s) == 1 else "S0")
             if anchors == "random" and s:
@@ -182,13 +203,18 @@ def setup(nx, ny, mask, rng, anchors, surfaces=1, amp=3):
                 a = rng.choice([f"N{v}", f"C{s[0]}", f"C{s[-1]}", "C9"])
             elif anchors == "random" and rng.random() < 0.15:
                 a = "C9"
-            lines.append(f"wanchor v {v} {a}")
+            lines.append(f"{w} v {v} {a}")
         for e in sorted({g.eid(d) for d in g.linked}):
+            if not has_e or (rule == "inner-edges" and g.b[2][e]) or (rule == "random" and rng.random() < 0.3):
+                continue
             s = set(sides_of(g.org(e), nx, ny)) & set(sides_of(g.org(g.b[1][e]), nx, ny))
             a = f"C{min(s)}" if (s and g.b[2][e] == 0) else "S0"
-            lines.append(f"wanchor e {e} {a}")
+            lines.append(f"{w} e {e} {a}")
         for k, f in enumerate(sorted({g.fid(d) for d in g.linked})):
-            lines.append(f"wanchor f {f} S{k % surfaces}")
+            if not has_f or rule == "faces" or (rule == "faces-some" and (k % 2 == 0) == (somef < 0.5)) \
+                    or (rule == "random" and rng.random() < 0.4):
+                continue
+            lines.append(f"{w} f {f} S{k % surfaces}")
     if mask & 1:
         for v in vids:
             lines.append(f"wa 1 {v} {100 + v}")
@@ -286,6 +312,17 @@ def configs(tier):
     return out
 
 
+PARTIAL = ((96, "all"), (32, "all"), (64, "all"), (128, "all"), (160, "all"), (192, "all"), (224, "faces"), (224, "faces-some"),
+           (224, "inner-edges"), (224, "random"), (96, "inner-edges"), (224, "vertices-some"))
+
+
+def partial_configs(tier):
+    """PARTIALLY anchored meshes (in scope: `with and without anchor attributes`): some of the storages 6/7/8 only, or all
+    three with anchors left undefined on purpose"""
+    sizes = [(1, 1), (2, 1), (2, 2)] + ([(3, 2), (3, 3)] if tier == "thorough" else [])
+    return [(nx, ny, mask, ("part", rule), 1 + (nx + len(rule)) % 2) for (nx, ny) in sizes for (mask, rule) in PARTIAL]
+
+
 def mesh_of(lines):
     """the implementation's snapshot after `lines` (used to generate calls on meshes that are not plain grids)"""
     _rc, out = hv.run_bin(hv.HCIMPL, "\n".join(lines + ["snap"]) + "\n")
@@ -295,19 +332,20 @@ def mesh_of(lines):
 
 def refined(pre, g, rng, anchors, ncuts):
     """the mesh after `ncuts` successful random cuts (re-anchored if a listed finding leaves a cell bare; cuts no longer do since /repo 27a7433)"""
+    full = anchors and not part_of(anchors)
     for _ in range(ncuts):
         e = rng.choice(sorted({g.eid(d) for d in g.linked}))
-        if anchors and g.b[2][e]:
+        if g.anch["a6"] and g.b[2][e]:
             continue        # cut_inner_edge never succeeds once VertexAnchor is registered
         cand = pre + cut_lines(g, e, rng)
         m = mesh_of(cand)
         if m is None or not m.is_triangle_mesh() or not m.embedded():
             continue
-        rep = repair_lines(m) if anchors else []
+        rep = repair_lines(m) if full else []
         if rep:
             cand = cand + rep
             m = mesh_of(cand)
-        if m is not None and m.is_triangle_mesh() and m.embedded() and m.fully_anchored():
+        if m is not None and m.is_triangle_mesh() and m.embedded() and (m.fully_anchored() or not full):
             pre, g = cand, m
     return pre, g
 
@@ -323,23 +361,29 @@ def every_edge(tier, rng):
                 variants.append((nx, ny, mask, anchors, surfaces, rep, 1 + rep % 2))
             if anchors and nx * ny <= 6:
                 variants.append((nx, ny, mask, "random", surfaces, rep, 0))
+    for (nx, ny, mask, anchors, surfaces) in partial_configs(tier):
+        for rep in range(reps):
+            variants.append((nx, ny, mask, anchors, surfaces, rep, 0))
+            if nx * ny <= 2:
+                variants.append((nx, ny, mask, anchors, surfaces, rep, 1))
     for (nx, ny, mask, anchors, surfaces, rep, ncuts) in variants:
         if True:
             pre, g = setup(nx, ny, mask, rng, anchors, surfaces)
             if ncuts:
                 pre, g = refined(pre, g, rng, anchors, ncuts)
-            rep = f"{rep}c{ncuts}{'r' if anchors == 'random' else ''}"
+            rep = f"{rep}c{ncuts}{'r' if anchors == 'random' else ''}{('p-' + part_of(anchors)) if part_of(anchors) else ''}"
             for e in g.linked:
                 canonical = g.eid(e) == e
                 inner = g.b[2][e] != 0
                 ops = [[f"swap {e}"], [f"collapse {e}"], cut_lines(g, e, rng), cut_lines(g, e, rng, shuffle=True)]
                 for o in ops:
-                    sig = f"{o[-1].split()[0]}-{'inner' if inner else 'boundary'}-{'anch' if anchors else 'plain'}"
+                    sig = f"{o[-1].split()[0]}-{'inner' if inner else 'boundary'}-" \
+                          f"{('part-' + part_of(anchors)) if part_of(anchors) else ('anch' if anchors else 'plain')}"
                     # with anchors, the kernels read the EdgeAnchor at the identifier they are given: a non-canonical dart is
                     # outside the guard (`e: EdgeIdType`), kept for the correspondence and the generic clauses
                     lines = pre + o[:-1] + ["snap", o[-1], "snap", "wf"]
                     cases.append(Case(f"e{nx}x{ny}m{mask}s{surfaces}r{rep}-{e}-{o[-1].split()[0]}{len(cases)}", lines,
-                                      oracle="c15" if (canonical or not anchors) else "unchanged",
+                                      oracle="c15" if (canonical or not anchors or not mask & 64) else "unchanged",
                                       meta={"sig": sig}))
     return cases
 
@@ -370,7 +414,9 @@ def repair_lines(m):
 def next_call(m, rng, anchors):
     if not m.is_triangle_mesh(m.free) or not m.embedded() or m.max_den_bits() > MAXBITS or not m.linked:
         return None
-    pre = repair_lines(m) if anchors else []
+    pre = repair_lines(m) if (anchors and not part_of(anchors)) else []
+    # anchors left under identifiers that are no longer cells (finding D15a) are cleared, so that the history stays in the guard
+    pre = [f"xanchort {k} {i}" for (k, i) in m.stale_anchors()] + pre
     edges = sorted({m.eid(d) for d in m.linked})
     inner = [e for e in edges if m.b[2][e]]
     bnd = [e for e in edges if not m.b[2][e]]
@@ -397,11 +443,12 @@ def next_call(m, rng, anchors):
 
 def histories(count, maxops, rng, tier):
     states = []
-    cfgs = configs(tier)
+    cfgs, pcfgs = configs(tier), partial_configs(tier)
     for c in range(count):
-        nx, ny, mask, anchors, surfaces = rng.choice(cfgs)
+        nx, ny, mask, anchors, surfaces = rng.choice(pcfgs if c % 4 == 3 else cfgs)
         pre, _g = setup(nx, ny, mask, rng, anchors, surfaces)
-        states.append({"cid": f"h{c}-{nx}x{ny}m{mask}", "lines": pre + ["snap"], "anchors": anchors, "alive": True, "ops": 0})
+        states.append({"cid": f"h{c}-{nx}x{ny}m{mask}" + (f"p-{part_of(anchors)}" if part_of(anchors) else ""),
+                       "lines": pre + ["snap"], "anchors": anchors, "alive": True, "ops": 0})
     for _round in range(maxops):
         live = [s for s in states if s["alive"]]
         if not live:
@@ -515,6 +562,10 @@ TWO_ANCH = ["wanchor v 1 N1", "wanchor v 2 N2", "wanchor v 3 C3", "wanchor v 6 C
             "wanchor f 10 S4"]
 
 
+# the unit square with vertex and edge anchors only (written through `wanchort`: works with any set of storages), + 3 spare darts
+PART_VE = [x.replace("wanchor ", "wanchort ") for x in UNIT_ANCH if not x.startswith("wanchor f")] + ["add 3"]
+
+
 # found by the thorough history stream (seed 20260926, case h779), greedily shortened: an interior edge between two boundary
 # vertices whose adjacent triangles have no boundary side
 D15F_HISTORY = ["grid 2 1 0 ncl 0 0 1 2 1 1", "wv 1 -1/8 -1/16", "wv 2 1 3/16", "wv 3 -1/8 13/16", "wv 6 7/8 15/16", "wv 9 1/16 2",
@@ -584,6 +635,15 @@ def directed():
         mk("d15d-2x2-cut", ["grid 2 1 0 ncl 0 0 2 2 1 1", "add 6", "cutin 5 25 26 27 28 29 30"], "collapse 26", "D15d"),
         mk("d15e-unit-square", unit_a, "collapse 5", "D15e"),
         mk("d15f-pinch", D15F_HISTORY, "collapse 8", "D15f"),
+        # partially anchored meshes: vertex and edge anchors everywhere, no FaceAnchor storage / no face anchor written: the new
+        # vertex of an outer cut gets the anchor of the cut edge, both halves of the edge keep it
+        mk("part-ve-cutout", ["grid 2 1 96 ncl 0 0 1 1 1 1"] + PART_VE, "cutout 1 7 8 9", "part-anchors"),
+        mk("part-ve-cutout-perm", ["grid 2 1 96 ncl 0 0 1 1 1 1"] + PART_VE, "cutout 5 9 7 8", "part-anchors"),
+        mk("part-nof-cutout", ["grid 2 1 224 ncl 0 0 1 1 1 1"] + PART_VE, "cutout 1 7 8 9", "part-anchors"),
+        mk("part-onef-cutout", ["grid 2 1 224 ncl 0 0 1 1 1 1"] + PART_VE + ["wanchort f 4 S0"], "cutout 1 7 8 9", "part-anchors"),
+        mk("part-ve-swap", ["grid 2 1 96 ncl 0 0 1 1 1 1"] + PART_VE[:-1], "swap 2", "D9"),
+        mk("part-ve-collapse", ["grid 2 1 96 ncl 0 0 1 2 1 1"] + [x.replace("wanchor ", "wanchort ") for x in TWO_ANCH
+                                                              if not x.startswith("wanchor f")], "collapse 5", "part-anchors"),
         # former finding D15g (fixed in /repo 94962f9): the collapse that would flatten a triangle is refused
         Case("fixed-d15g-flat", D15G_PRE + ["snap", "collapse 5", "snap", "wf"], oracle="c15",
              meta={"sig": "fixed-D15g", "expect": (len(D15G_PRE) + 1, "err InvertedOrientation")}),
